@@ -184,6 +184,34 @@ def run(rep: vk.Report):
             M = r.choice(pool.matrices)
             if r.random() < 0.3:
                 M = M.T
+            if r.random() < 0.3 and M.rows >= 2 and M.cols >= 2:
+                # operations compose: a sub-block (principal, off-diagonal, non-square) of a matrix / transpose / symmetric matrix,
+                # possibly transposed again, is an operand like any other
+                r0 = r.randrange(M.rows - 1); r1 = r.randint(r0 + 1, M.rows)
+                c0 = r.randrange(M.cols - 1); c1 = r.randint(c0 + 1, M.cols)
+                try:
+                    B = M[r0:r1, c0:c1]
+                    if hasattr(B, "rows"):
+                        # every construction step is itself a case: the block against m_sub, its transpose against m_T
+                        cases.add(f"(m_sub {S.mobj(M)} {oz(r0)} {oz(r1)} None {oz(c0)} {oz(c1)} None, {S.res(B)})",
+                                  {"op": "m_sub(step)", "python": "ok"}, kinds={"m_sub", "step"})
+                        if r.random() < 0.5:
+                            BT = B.T
+                            cases.add(f"(m_T {S.mobj(B)}, {S.res(BT)})", {"op": "T(step)", "python": "ok"}, kinds={"T", "step"})
+                            ref_T = np_values(B, vals).T
+                            got_T = np_values(BT, vals)
+                            np_checks += 1
+                            if got_T.shape != ref_T.shape or not np.array_equal(got_T, ref_T):
+                                np_bad += 1
+                                rep.violation({"kind": "numpy", "obligation": "built object evaluates to the NumPy operation on the values",
+                                               "witness": {"op": "transpose of a sub-block", "of": M.name, "block": [r0, r1, c0, c1],
+                                                           "got": got_T.tolist(), "numpy": ref_T.tolist()}}, concrete=True)
+                            M = BT
+                        else:
+                            M = B
+                        ops_hist["operand:sub-block"] = ops_hist.get("operand:sub-block", 0) + 1
+                except (IndexError, ser.Unsupported):
+                    pass
             nx = x.size
             op = r.choice(["getitem", "slice", "binop", "rbinop", "neg", "sum", "dot", "dot_matvec", "matmul", "rmatmul", "norm",
                            "quad", "m_getitem", "m_row", "m_col", "m_sub", "T", "diagonal", "trace", "m_binop", "m_rbinop",
@@ -372,6 +400,37 @@ def run(rep: vk.Report):
                 if v_ is not None:
                     nums.append(f"(match {model} with RExpr e => e | _ => Const (QQ 0 1) end, {common.pts_term(dict(vals))}, [], [{ser.q(v_)}])")
                     nmeta.append({"op": op, "value": v_})
+    # ---- exhaustive sweep: every sub-block of a plain 3x4 and a symmetric 4x4 matrix (and of their transposes), and its transpose
+    sweep = 0
+    for base in (MatrixVariable("P", 3, 4), MatrixVariable("Q", 4, 4, symmetric=True)):
+        vals2 = Vals(random.Random(7))
+        for M0 in (base, base.T):
+            for r0 in range(M0.rows):
+                for r1 in range(r0 + 1, M0.rows + 1):
+                    for c0 in range(M0.cols):
+                        for c1 in range(c0 + 1, M0.cols + 1):
+                            S = S2()
+                            B = M0[r0:r1, c0:c1]
+                            if not hasattr(B, "rows"):
+                                continue
+                            BT = B.T
+                            cases.add(f"(m_sub {S.mobj(M0)} {oz(r0)} {oz(r1)} None {oz(c0)} {oz(c1)} None, {S.res(B)})",
+                                      {"op": "m_sub(sweep)", "python": "ok"}, kinds={"m_sub", "sweep"})
+                            cases.add(f"(m_T {S.mobj(B)}, {S.res(BT)})", {"op": "T(sweep)", "python": "ok"}, kinds={"T", "sweep"})
+                            sweep += 2
+                            want = np_values(M0, vals2)[r0:r1, c0:c1]
+                            for what, obj, ref in (("sub-block", B, want), ("transpose of sub-block", BT, want.T),
+                                                   ("sum of transposed sub-block rows", None, None)):
+                                if obj is None:
+                                    continue
+                                got = np_values(obj, vals2)
+                                np_checks += 1
+                                if got.shape != ref.shape or not np.array_equal(got, ref):
+                                    np_bad += 1
+                                    rep.violation({"kind": "numpy", "obligation": "built object evaluates to the NumPy operation on the values",
+                                                   "witness": {"op": what, "of": M0.name, "symmetric": bool(base.symmetric), "block": [r0, r1, c0, c1],
+                                                               "got": got.tolist(), "numpy": ref.tolist()}}, concrete=True)
+    ops_hist["sweep:sub-blocks"] = sweep
     fails = cases.run(shard=200)
     for i in fails:
         model = cases.model_answer(i, lambda t: "fst " + t)
